@@ -6,7 +6,7 @@
   label itself does not occur; a pruned variable stays pruned until it is reported), and the theorem
   `skip_detected`.
 -/
-import PenneModel.Props.C05
+import PenneModel.Scope.VarsLemmas
 
 namespace Vars
 
